@@ -11,7 +11,7 @@ package decoder
 //@   ensures [C12] result == nil || (result.Range.ContainsPos(pos) && len(result.Content.Value) > 0)
 //@   assert before decoder.newExpression#1 : [C12,name:element-against-the-element-constraint] arg1 == elemExpr && arg2 == list.cons.Elem
 //@   assert before invoke:HoverAtPos#1 : [C12,name:element-asked-only-if-it-contains-the-cursor] elemExpr.Range().ContainsPos(pos) && arg1 == pos
-//@   loop 1 invariant [C12] forall(j, 0, rangeindex + 1, !(eType.Exprs[j].Range().Start.Byte <= pos.Byte && pos.Byte < eType.Exprs[j].Range().End.Byte))
+//@   loop 1 invariant [C12,claim] forall(j, 0, rangeindex + 1, !(eType.Exprs[j].Range().Start.Byte <= pos.Byte && pos.Byte < eType.Exprs[j].Range().End.Byte))
 //@   ensures [C12,name:whole-list-only-when-no-element-is-under-the-cursor] implies(len(content) >= 0, forall(j, 0, len(eType.Exprs), !(eType.Exprs[j].Range().Start.Byte <= pos.Byte && pos.Byte < eType.Exprs[j].Range().End.Byte)))
 //@   ensures [C12,C02,name:whole-list-range] implies(len(content) >= 0, result != nil && result.Range == list.expr.Range())
 //@   ensures [C12,name:list-description] implies(len(content) >= 0 && list.cons.Description.Value != "", endsWith(result.Content.Value, "\n\n" + list.cons.Description.Value))
@@ -24,7 +24,7 @@ package decoder
 //@   ensures [C12] result == nil || (result.Range.ContainsPos(pos) && len(result.Content.Value) > 0)
 //@   assert before decoder.newExpression#1 : [C12,name:element-against-the-element-constraint] arg1 == elemExpr && arg2 == set.cons.Elem
 //@   assert before invoke:HoverAtPos#1 : [C12,name:element-asked-only-if-it-contains-the-cursor] elemExpr.Range().ContainsPos(pos) && arg1 == pos
-//@   loop 1 invariant [C12] forall(j, 0, rangeindex + 1, !(eType.Exprs[j].Range().Start.Byte <= pos.Byte && pos.Byte < eType.Exprs[j].Range().End.Byte))
+//@   loop 1 invariant [C12,claim] forall(j, 0, rangeindex + 1, !(eType.Exprs[j].Range().Start.Byte <= pos.Byte && pos.Byte < eType.Exprs[j].Range().End.Byte))
 //@   ensures [C12,name:whole-set-only-when-no-element-is-under-the-cursor] implies(len(content) >= 0, forall(j, 0, len(eType.Exprs), !(eType.Exprs[j].Range().Start.Byte <= pos.Byte && pos.Byte < eType.Exprs[j].Range().End.Byte)))
 //@   ensures [C12,C02,name:whole-set-range] implies(len(content) >= 0, result != nil && result.Range == set.expr.Range())
 //@   ensures [C12,name:set-description] implies(len(content) >= 0 && set.cons.Description.Value != "", endsWith(result.Content.Value, "\n\n" + set.cons.Description.Value))
@@ -43,7 +43,7 @@ package decoder
 //@   assert before invoke:HoverAtPos#1 : [C12] arg1 == pos
 //@   assert before decoder.newExpression#2 : [C12,name:value-against-the-element-constraint] arg1 == item.ValueExpr && arg2 == m.cons.Elem
 //@   assert before invoke:HoverAtPos#2 : [C12,name:value-asked-only-if-it-contains-the-cursor] item.ValueExpr.Range().ContainsPos(pos) && !item.KeyExpr.Range().ContainsPos(pos) && arg1 == pos
-//@   loop 1 invariant [C12] forall(j, 0, rangeindex + 1, !(eType.Items[j].KeyExpr.Range().Start.Byte <= pos.Byte && pos.Byte < eType.Items[j].KeyExpr.Range().End.Byte) && !(eType.Items[j].ValueExpr.Range().Start.Byte <= pos.Byte && pos.Byte < eType.Items[j].ValueExpr.Range().End.Byte))
+//@   loop 1 invariant [C12,claim] forall(j, 0, rangeindex + 1, !(eType.Items[j].KeyExpr.Range().Start.Byte <= pos.Byte && pos.Byte < eType.Items[j].KeyExpr.Range().End.Byte) && !(eType.Items[j].ValueExpr.Range().Start.Byte <= pos.Byte && pos.Byte < eType.Items[j].ValueExpr.Range().End.Byte))
 //@   ensures [C12,name:whole-map-only-when-no-key-or-value-is-under-the-cursor] implies(len(content) >= 0, forall(j, 0, len(eType.Items), !(eType.Items[j].KeyExpr.Range().Start.Byte <= pos.Byte && pos.Byte < eType.Items[j].KeyExpr.Range().End.Byte) && !(eType.Items[j].ValueExpr.Range().Start.Byte <= pos.Byte && pos.Byte < eType.Items[j].ValueExpr.Range().End.Byte)))
 //@   ensures [C12,C02,name:whole-map-range] implies(len(content) >= 0, result != nil && result.Range == m.expr.Range())
 //@   ensures [C12,name:map-description] implies(len(content) >= 0 && m.cons.Description.Value != "", endsWith(result.Content.Value, "\n\n" + m.cons.Description.Value))
